@@ -34,6 +34,7 @@ type opSpec struct {
 	Safe   bool // manifest-safe method
 	Combos [][]argv
 	Paths  []string
+	TokFam string                   // path "token": family of T's methods reaching Self.Method through CALLT
 	Raw    func(args []argv) []byte // path "entry": the raw script
 	Full   int                      // size of the full product before capping
 }
@@ -211,7 +212,12 @@ func (w *world) nativeSpecs(cap int) []*opSpec {
 				menus = append(menus, w.menu(p.Type))
 			}
 			combos, full := product(menus, cap)
+			paths, fam := []string{"direct", "viaA", "viaAreq"}, ""
+			if c.Hash == nativehashes.GasToken && m.Name == "balanceOf" {
+				paths, fam = append(paths, "token"), "GASbalanceOf"
+			}
 			out = append(out, &opSpec{
+				TokFam: fam,
 				Op:     fmt.Sprintf("native:%s.%s/%d", c.Manifest.Name, m.Name, len(m.Parameters)),
 				Group:  "native",
 				Self:   c.Hash,
@@ -219,7 +225,7 @@ func (w *world) nativeSpecs(cap int) []*opSpec {
 				Safe:   m.Safe,
 				Combos: combos,
 				Full:   full,
-				Paths:  []string{"direct", "viaA", "viaAreq"},
+				Paths:  paths,
 			})
 		}
 	}
@@ -233,7 +239,7 @@ func (w *world) uSpecs() []*opSpec {
 	gasH := nativehashes.GasToken.BytesBE()
 	put := []any{chainx.OpPut, []byte("x"), []byte("1")}
 	one := func(op string, progs ...argv) *opSpec {
-		s := &opSpec{Op: "u:" + op, Group: "u", Self: w.UA, Method: "run", Paths: []string{"u"}}
+		s := &opSpec{Op: "u:" + op, Group: "u", Self: w.UA, Method: "run", Paths: []string{"u", "token"}, TokFam: "UArun"}
 		for _, p := range progs {
 			s.Combos = append(s.Combos, []argv{p})
 		}
